@@ -426,7 +426,12 @@ impl Value {
 	#[cfg(feature = "canonicalize")]
 	pub fn canonicalize_with(&mut self, buffer: &mut ryu_js::Buffer) {
 		match self {
-			Self::Number(n) => *n = NumberBuf::from_number(n.canonical_with(buffer)),
+			Self::Number(n) => {
+				// `str::parse` is correctly rounded, unlike the lossy conversion
+				// used by `Number::canonical_with`.
+				let f: f64 = n.as_str().parse().unwrap();
+				*n = unsafe { NumberBuf::new_unchecked(buffer.format_finite(f).as_bytes().into()) }
+			}
 			Self::Array(a) => {
 				for item in a {
 					item.canonicalize_with(buffer)
